@@ -50,8 +50,29 @@ func c10Run(in []string) []string {
 			continue
 		}
 		b := inst.BuildFrame(e)
+		bt := strconv.Itoa(int(b))
+		if (s.Salt+uint64(ev.ID))%5 == 0 {
+			// Build called twice for the same event: same frame (only the temporary id differs)
+			vu.Stat("build_twice")
+			if b2 := inst.BuildFrame(e); b2 != b {
+				bt += "/" + strconv.Itoa(int(b2))
+			}
+		}
 		code := inst.Process(e)
-		obs = append(obs, "b"+strconv.Itoa(int(b))+":p"+strconv.Itoa(code))
+		obs = append(obs, "b"+bt+":p"+strconv.Itoa(code))
+		if code == 0 && (s.Salt+uint64(ev.ID))%7 == 0 {
+			// an already processed event offered again: the application's duplicate guard (the event
+			// is in its store) keeps it away from Process, as AbftRun.guard does in the model. Calling
+			// Process twice returns nil and damages the instance (design-notes/C10.md, Sweep).
+			if inst.Input.HasEvent(e.ID()) {
+				vu.Stat("duplicate_guarded")
+			}
+		}
+		if ev.Frame >= 256 {
+			vu.Stat("event_frame_ge_256")
+		} else if ev.Frame >= 100 {
+			vu.Stat("event_frame_ge_100")
+		}
 		if code == 0 {
 			ids[ev.ID] = e
 			name[e.ID()] = ev.ID
@@ -76,6 +97,17 @@ func c10Run(in []string) []string {
 		if len(b.Cheaters) > 0 {
 			vu.Stat("block_with_cheaters")
 		}
+		if b.Sealed {
+			vu.Stat("sealed_at_frame_" + strconv.Itoa(int(b.Frame)))
+		}
+		if !b.Applied {
+			vu.Stat("block_without_applyevent")
+		} else {
+			vu.Stat("block_with_applyevent")
+		}
+	}
+	if len(inst.Blocks) >= 100 {
+		vu.Stat("run_with_100_or_more_blocks")
 	}
 	return append(obs, inst.BlockTokens(name)...)
 }
